@@ -1,5 +1,6 @@
 from abc import ABC, abstractmethod
 import os
+import copy
 import numpy as np
 import pickle as pkl
 import warnings
@@ -83,7 +84,7 @@ class Sampler(ABC):
             self.initial_point = self._get_default_initial_point(self.dim)
 
         # State variables
-        self.current_point = self.initial_point
+        self.current_point = copy.deepcopy(self.initial_point) # own copy: the caller may go on using its array
 
         # History variables
         self._samples = []
@@ -469,7 +470,7 @@ class ProposalBasedSampler(Sampler, ABC):
             self.proposal = self._default_proposal
 
         # State variables
-        self.current_point = self.initial_point
+        self.current_point = copy.deepcopy(self.initial_point) # own copy: the caller may go on using its array
         self.scale = self.initial_scale
 
         self.current_target_logd = self.target.logd(self.current_point)
